@@ -9,6 +9,7 @@
 -/
 import ArtVerif.Props.C02
 import ArtVerif.Proofs.SortedExt
+import ArtVerif.Proofs.Overwrite
 namespace ArtVerif.C15
 open ArtVerif T Tree
 
@@ -72,6 +73,21 @@ theorem overwrite_only_value {tf} {t : Tree V} (h : Inv tf t) (k : Bytes) (v w :
           subst hx
           exact Or.inr ⟨hit, hk⟩
   · rw [size_insert h k v hpf, ha]; simp
+
+/-- … and structurally: the index after the overwrite is the index before it with the value of that one
+    leaf replaced – no node, size class, compressed path, branch byte or other leaf changes -/
+theorem overwrite_structure {tf} {t : Tree V} (h : Inv tf t) (k : Bytes) (v w : V) (ha : abs t k = some w)
+    (hpf : PFree tf k (items t)) :
+    (t.insert (tf k) k v).root = t.root.map (setVal k v) := by
+  have hin : (k, tf k, w) ∈ items t := (abs_eq_some_iff h k w).mp ha
+  cases hr : t.root with
+  | none => simp [items, leaves, hr] at hin
+  | some r =>
+    have hit : items t = inorder r := by simp [items, leaves, hr]
+    have := insert_present (fuelFor (tf k)) r [] (tf k) k v (h.wf r hr) (by simp)
+      (hit ▸ compat_of_pfree h hpf) (by simp [fuelFor]) ⟨_, hit ▸ hin, rfl⟩
+    simp only [List.length_nil] at this
+    simp [Tree.insert, hr, this]
 
 /-- hence any number of read-only calls may be interleaved anywhere without affecting later results:
     the run of a history with queries removed ends in the same tree -/
